@@ -113,8 +113,10 @@ CHECKS = {
             "DESIGN.md section 5, C17", TRUST),
     "C19": ("round-trip + differential monitor (serde_json vs FromStr) on the shared stream and reachable values",
             "Serialisation must be exactly the JSON string of to_string(); deserialising that yields an equal value; for every UTF-8 input of the stream, "
-            "deserialising it from three JSON renderings (plain, fully \\u-escaped, mixed) and from serde_json::Value succeeds iff parsing succeeds, with equal "
-            "values; 18 non-string JSON documents (incl. 200-deep nesting) must give Err without panicking.",
+            "deserialising it from three JSON renderings (plain, fully \\u-escaped, mixed), from serde_json::Value, from bytes and from a reader, as an array element, an "
+            "Option and a JSON object key, and through serde's own value deserializers (the visit_str, visit_string and visit_borrowed_str routes) succeeds iff parsing "
+            "succeeds, with equal values; as a map key and container element it serialises to the same canonical text; 18 non-string JSON documents (incl. 200-deep "
+            "nesting) and 8 non-string value deserializers must give Err without panicking.",
             "DESIGN.md section 5, C19", TRUST),
     "C16": ("compiler-diagnostic monitor + offline event-log checker over generated crates of macro invocations",
             "A positive crate (one invocation per line on well-formed literals for all nine macros) must build with zero errors; the built program logs one "
@@ -134,6 +136,7 @@ CHECKS = {
 FUZZED = {"C01", "C02", "C03", "C04", "C05", "C09", "C10", "C13", "C15", "C19"}
 HISTORY = {"C01", "C06", "C07", "C08", "C14"}
 ECHO = {"C01", "C02", "C03", "C04", "C05", "C09", "C13", "C19", "C20"}
+MEMCHECK = {"C01", "C06", "C10", "C17", "C18"}
 
 REASON_PENDING = "check not built yet in this round; design in DESIGN.md section 5"
 
@@ -156,6 +159,10 @@ def main():
                 tech += "; thorough tier adds a coverage-guided libFuzzer workload under AddressSanitizer driving the same monitor"
                 text += (" Thorough additionally: 16 libFuzzer processes (SanitizerCoverage feedback, ASan, seeded corpus + dictionary, bounded by -runs) "
                          "drive the same per-input monitor; recorded failures are confirmed and minimised on the release build.")
+            if pid in MEMCHECK:
+                tech += "; thorough tier re-runs a slice of the workload under valgrind memcheck (uninitialised-value use, invalid accesses, definite leaks)"
+                text += (" Thorough additionally: the release build of the same engine under valgrind memcheck (16 processes on a slice of the quick workload); "
+                         "a memcheck report is a violation.")
             if pid in HISTORY:
                 text += (" History phase: per language the related queries are re-asked in several random orders (pure functions must not "
                          "depend on the call history), each call judged by the same oracle.")
